@@ -2,11 +2,147 @@
 
 package main
 
+import (
+	"bytes"
+	"fmt"
+	"io/ioutil"
+	"runtime"
+	"sync"
+	"sync/atomic"
+
+	"github.com/google/safehtml/template"
+)
+
 func init() { props["C07"] = runC07 }
 
 func runC07(c *caseWriter) (string, bool, map[string]int) {
 	quick := tier != "thorough"
 	genPropHistories(c, "hist07", quick)
 	genHistories(c, quick)
-	return "API histories over a pool of 61 definition texts (helpers shared between callers in different contexts, context-opening helpers, failing/recursive/undefined/empty callees, break/continue, predefined escapers): every pool set with every order and repetition of executing two of its members, clone / late-parse scenarios, and random histories of 4-12 ops (New, t.New, Parse, Clone, Lookup, Execute, ExecuteTemplate, Templates/DefinedTemplates/Name, CSPCompatible) weighted towards doing something after an execution; every exec op is also run on a fresh set with the same definitions and on the projection of the history to its own name space; non-trivial = the history executes a template", false, nil
+	for k := 0; k < 3*len(c07RaceSets); k++ {
+		emit(c, "clone_race", fmt.Sprint(k))
+	}
+	return "clone_race: on 5 sets (one of 26 long members) x 3 x 240 fresh copies, Clone of the root races (spinning barrier, 0-3 yields on either side) with the first ExecuteTemplate of a member of the parent; a clone that is returned must execute every member exactly as a fresh set does. API histories over a pool of 61 definition texts (helpers shared between callers in different contexts, context-opening helpers, failing/recursive/undefined/empty callees, break/continue, predefined escapers): every pool set with every order and repetition of executing two of its members, clone / late-parse scenarios, and random histories of 4-12 ops (New, t.New, Parse, Clone, Lookup, Execute, ExecuteTemplate, Templates/DefinedTemplates/Name, CSPCompatible) weighted towards doing something after an execution; every exec op is also run on a fresh set with the same definitions and on the projection of the history to its own name space; non-trivial = the history executes a template", false, nil
+}
+
+// ---------------------------------------------------------------- clone taken during a first execution
+//
+// clone_race <set>: on fresh sets, Clone of the root races with the first ExecuteTemplate of a member of
+// the parent.  Sequentially there are two outcomes: the clone was taken before the execution (it is an
+// unexecuted, independent copy) or after it (Clone is refused).  A clone that was returned must therefore
+// behave exactly like a fresh set with the same definitions: every member executed in order on the
+// clone gives the result (error class and bytes) it gives on a fresh set.
+
+var c07RaceSets = [][][2]string{
+	{{"row", `<li>{{template "val" .}}</li>`}, {"val", `<b title="{{.}}">{{.}}</b>`}, {"page", `<ul>{{template "row" .}}</ul><a href="/p?q={{template "val2" .}}">x</a>`}, {"val2", `{{.}}`}},
+	{{"a", `<p>{{template "h" .}}</p>`}, {"b", `<a title="{{template "h" .}}">k</a>`}, {"h", `{{.}}`}, {"c", `<a href="/x?y={{template "h" .}}">l</a>`}},
+	{{"a", `<p>{{.}}</p>`}, {"f", `<a href="{{.}}`}, {"g", `{{template "f" .}}`}, {"b", `<i>{{template "a" .}}</i>`}},
+	{{"r", `{{if .}}<li>{{.}}</li>{{template "r" ""}}{{end}}`}, {"a", `<ol>{{template "r" .}}</ol>`}, {"b", `<script>var x = {{template "k" .}};</script>`}, {"k", `{{.}}`}},
+}
+
+// a big set: copying its trees and analysing it take long enough for the two to overlap
+func init() {
+	var big [][2]string
+	var page string
+	for i := 0; i < 24; i++ {
+		body := "<ul>"
+		for j := 0; j < 12; j++ {
+			body += fmt.Sprintf(`<li class="c%d" title="{{.}}">{{template "val" .}}<a href="/p%d?q={{.}}">{{.}}</a></li>`, j, j)
+		}
+		name := fmt.Sprintf("m%02d", i)
+		big = append(big, [2]string{name, body + "</ul>"})
+		page += fmt.Sprintf(`{{template "%s" .}}`, name)
+	}
+	big = append(big, [2]string{"val", `<b>{{.}}</b>`}, [2]string{"page", page})
+	c07RaceSets = append(c07RaceSets, big)
+}
+
+func c07BuildSet(defs [][2]string) *template.Template {
+	root := template.New("root")
+	template.VerifParse(root, "root {{.}}")
+	for _, d := range defs {
+		template.VerifParse(root.New(d[0]), d[1])
+	}
+	return root
+}
+
+func c07ExecAll(t *template.Template, defs [][2]string) []string {
+	var res []string
+	for _, d := range defs {
+		res = append(res, func() (r string) {
+			defer func() {
+				if p := recover(); p != nil {
+					r = "panic:" + classifyPanic(p)
+				}
+			}()
+			var buf bytes.Buffer
+			err := t.ExecuteTemplate(&buf, d[0], "<x y='z'>&")
+			return classifyErr(err) + "|" + buf.String()
+		}())
+	}
+	return res
+}
+
+func init() {
+	reg("clone_race", 1, func(c *caseWriter, in []string) {
+		var k int
+		fmt.Sscan(in[0], &k)
+		defs := c07RaceSets[k%len(c07RaceSets)]
+		want := c07ExecAll(c07BuildSet(defs), defs)
+		rounds, cloned, bad, detail := 240, 0, 0, ""
+		for r := 0; r < rounds; r++ {
+			root := c07BuildSet(defs)
+			var clone *template.Template
+			var cerr error
+			var arrived int32
+			var wg sync.WaitGroup
+			wg.Add(2)
+			meet := func() {
+				atomic.AddInt32(&arrived, 1)
+				for spins := 0; atomic.LoadInt32(&arrived) < 2; spins++ {
+					if spins > 1<<14 {
+						runtime.Gosched()
+					}
+				}
+			}
+			go func() {
+				defer wg.Done()
+				defer func() { recover() }()
+				meet()
+				if r%2 == 0 {
+					for y := (r / 2) % 4; y > 0; y-- {
+						runtime.Gosched()
+					}
+				}
+				clone, cerr = root.Clone()
+			}()
+			go func() {
+				defer wg.Done()
+				defer func() { recover() }()
+				meet()
+				if r%2 == 1 {
+					for y := (r / 2) % 4; y > 0; y-- {
+						runtime.Gosched()
+					}
+				}
+				root.ExecuteTemplate(ioutil.Discard, defs[len(defs)-1-(r/8)%2][0], "v")
+			}()
+			wg.Wait()
+			if cerr != nil || clone == nil {
+				continue
+			}
+			cloned++
+			got := c07ExecAll(clone, defs)
+			for i := range got {
+				if got[i] != want[i] {
+					bad++
+					if detail == "" {
+						detail = fmt.Sprintf("round %d: %s on the clone gives %q, on a fresh set %q", r, defs[i][0], got[i], want[i])
+					}
+					break
+				}
+			}
+		}
+		c.Case("clone_race", in[0], fmt.Sprint(rounds), fmt.Sprint(cloned), fmt.Sprint(bad), hx(detail))
+	})
 }
